@@ -689,6 +689,10 @@ KEEP_AGENTS = [
     ('R12-2', 'DIFF', 'R_C12_2.diff', None, ALL, 'while-let over a slice iterator -> for; enumerate loop with per-item flag choice -> split_last + extend; success-flag search loop -> find_map + let-else: Cartesian::probe_strategy (flag assignment and'),
     ('R12-3', 'DIFF', 'R_C12_3.diff', None, ALL, 'for loop with early return -> Iterator::find; if/else inverted into a guard clause with early Err return; chain().collect() -> extend on the first vector: Cartesian::step_adaptive_linear_transition (a'),
     ('R12-4', 'DIFF', 'R_C12_4.diff', None, ALL, 'extract helper method + temporaries removed/introduced; push loop -> into_iter().filter().collect(); manual length check and element-wise copy -> TryFrom<Vec<f64>> for [f64; 6]: Cartesian::add_interme'),
+    ('R20-1', 'DIFF', 'R_C20_1.diff', None, ALL, 'Vec + len()/index checks -> lazy iterator with (next(), next()) match; slice pattern instead of len check + indexing: Vector3::non_zero, get_axis_sign and get_xyz_from_origin in src/urdf.rs: the tempo'),
+    ('R20-2', 'DIFF', 'R_C20_2.diff', None, ALL, 'extract helper (first child by tag), guard clause with continue, deferred-init if/else -> match expression, mutable struct patch-up -> temporaries + single struct literal: collect_joints in src/urdf.r'),
+    ('R20-3', 'DIFF', 'R_C20_3.diff', None, ALL, 'index loop -> iter().enumerate(), 1-based match -> 0-based match, duplicated nested fn -> one shared helper, float-literal pattern match -> if/else chain, if/else -> if expression + guard: populate_op'),
+    ('R20-4', 'DIFF', 'R_C20_4.diff', None, ALL, 'if-let/else -> let-else with early return, ok_or/? -> match, repeated code -> local closure, get/insert -> HashMap entry API, duplicated struct construction -> delegation to sibling methods: src/urdf.'),
 ]
 KEEP += KEEP_AGENTS
 
@@ -714,5 +718,9 @@ OPEN_REWRITES = {
     'R16-4': 'Parallelogram through inverse_with(|robot| ..) / forward_with(qs, |robot, joints| ..): the inner call sits in a closure handed to a helper',
     'R17-2': 'source and target bases through orthonormal_basis(o, x, y) -> Option<Matrix3> and ok_or_else(..)?: R17.1/R17.2 read the two column triples',
     'R17-4': 'as R04-2 (cost closure inside the comparator)',
+    'R20-1': 'axis sign and offset readers match the first two items of a filtered iterator, xyz destructured by a slice pattern: R20.7 reads filter/map/len() == 1 (see also K103), the census the indexed form',
+    'R20-2': 'collect_joints with a first_child_named helper, early continue for non-joints, JointData built once from temporaries: R20.2/R20.5/R20.7 read the in-place form',
+    'R20-3': 'populate_opw_parameters over names.iter().enumerate() with a zero-based match and unreachable!(): R20.4 reads the arms of `match j + 1`',
+    'R20-4': 'convert_to_map through the HashMap entry() API, to_robot through parameters()/constraints(): R20.3 and R20.2 read get/insert and the direct Constraints::new',
     'R19-2': 'from_yaml_file blocks J6 by an array pattern match, dof from a match on the (top-level, nested) pair: R06.5 reads the in-place assignment',
 }
